@@ -1044,12 +1044,14 @@ func (r *Reconciler) updateTransactionStatus(ctx context.Context, transaction *c
 	log.Debug(transaction.Status)
 	err := r.transactions.UpdateStatus(ctx, transaction)
 	if err != nil {
-		if !errors.IsNotFound(err) && !errors.IsConflict(err) {
+		// A write conflict is returned like any other error: the callers go on to the next write of the same
+		// transition, which must not happen unless this one took effect. The reconciliation is retried.
+		if errors.IsConflict(err) {
+			log.Warnf("Write conflict updating Transaction %s status", transaction.ID, err)
+		} else {
 			log.Errorf("Failed updating Transaction %s status", transaction.ID, err)
-			return err
 		}
-		log.Warnf("Write conflict updating Transaction %s status", transaction.ID, err)
-		return nil
+		return err
 	}
 	return nil
 }
@@ -1058,12 +1060,14 @@ func (r *Reconciler) updateConfigurationStatus(ctx context.Context, configuratio
 	log.Debug(configuration.Status)
 	err := r.configurations.UpdateStatus(ctx, configuration)
 	if err != nil {
-		if !errors.IsNotFound(err) && !errors.IsConflict(err) {
+		// A write conflict is returned like any other error: the callers go on to the next write of the same
+		// transition, which must not happen unless this one took effect. The reconciliation is retried.
+		if errors.IsConflict(err) {
+			log.Warnf("Write conflict updating Configuration '%s' status", configuration.ID, err)
+		} else {
 			log.Errorf("Failed updating Configuration '%s' status", configuration.ID, err)
-			return err
 		}
-		log.Warnf("Write conflict updating Configuration '%s' status", configuration.ID, err)
-		return nil
+		return err
 	}
 	return nil
 }
